@@ -86,8 +86,17 @@ class Translator:
         if any(isinstance(a, ast.Starred) for a in pos) or any(k.arg is None for k in e.keywords):
             raise Unsupported("* / ** in call")
         suffix = "".join(",%s=" % k.arg for k in e.keywords)
-        args = [self.expr(a) for a in pos] + [self.expr(k.value) for k in e.keywords]
+        if isinstance(f, ast.Name) and f.id == "isinstance":
+            args = []
+        else:
+            args = [self.expr(a) for a in pos] + [self.expr(k.value) for k in e.keywords]
         if isinstance(f, ast.Name):
+            if f.id == "isinstance":
+                # isinstance(x, str|tuple|list): the class is part of the callee's name
+                if (len(pos) == 2 and not e.keywords and isinstance(pos[1], ast.Name)
+                        and pos[1].id in ("str", "tuple", "list")):
+                    return "(ECall %s %s)" % (cstr("isinstance:" + pos[1].id), lst([self.expr(pos[0])]))
+                raise Unsupported("isinstance form")
             return "(ECall %s %s)" % (cstr(f.id + suffix), lst(args))
         if isinstance(f, ast.Attribute):
             name = self.dotted(f)
